@@ -364,7 +364,7 @@ pub fn run_c01(env: &Env) {
     env.assume("plaintext reference = SimpleEvaluator on run_instantiation_pass(source) with native Call/Iterate");
     let steps = env.pick(12, 22);
     env.set_shrink_iters(400);
-    env.campaign("compiled-vs-plain", RULE_C01, env.n(12_000, 300_000), move || arb_case(steps), oracle_c01);
+    env.campaign("compiled-vs-plain", RULE_C01, env.n(40_000, 400_000), move || arb_case(steps), oracle_c01);
     env.pinned("private-permutation", &pinned_private_perm(), oracle_c01);
 }
 
@@ -373,7 +373,7 @@ pub fn run_c02(env: &Env) {
     env.assume("a party whose local evaluation of a node on junk fails simply does not know that value; it is a violation only if a listed output party's result (or a value it is sent) depends on it");
     let steps = env.pick(12, 22);
     env.set_shrink_iters(400);
-    env.campaign("three-party", RULE_C02, env.n(8000, 200_000), move || arb_case(steps), oracle_c02);
+    env.campaign("three-party", RULE_C02, env.n(25_000, 250_000), move || arb_case(steps), oracle_c02);
     env.pinned("private-permutation", &pinned_private_perm(), oracle_c02);
 }
 
